@@ -269,6 +269,6 @@ PROPS = {
                  'exactly 0 for `| safe`, for a filter and a function registered as safe (trait `is_safe`), and for a safe filter reached through `State::call_filter`, while the same filter/function not registered as safe is escaped, and depth 0 with zero logged escaper calls when the template is not autoescaped (suffix not matching, custom suffix lists set before or after adding, render_str flag). Every eighth case renders a general generated program (markup-free text, no safe, hostile data) with the default escaper.',
         'note': 'the escape function also validates that its input is valid UTF-8 (it is produced with from_utf8_unchecked); mixed on/off modes inside one render are not generated',
         'rule': "one evaluation = one render; a cell = (ordered routing step kinds, sink, autoescape on/off, configuration)",
-        'must_observe': ['mode_a_outputs_checked', 'escape_calls_logged', 'data_characters_classified', 'pass_through_programs', 'safe_programs', 'not_autoescaped_programs', 'per_call_flag_checks'],
+        'must_observe': ['mode_a_outputs_checked', 'escape_calls_logged', 'data_characters_classified', 'pass_through_programs', 'safe_programs', 'not_autoescaped_programs', 'per_call_flag_checks', 'suffix_decisions_checked'],
     },
 }
